@@ -260,6 +260,16 @@ def execute(case):
                 gu = as_grid_ufunc(**kw_of(dfn, True))(g)
             else:
                 gu = as_grid_ufunc(signature=sigtext, **kw_of(dfn, True))(func)
+            if case.get("id", 0) % 4 == 0 and case["edit"] == "none":
+                # the same GridUFunc object called before with other call-time options: options given to one call
+                # (or bound at definition) are not to be changed by another call
+                try:
+                    gu(grid, *inputs, axis=axis, **dict(kw_of(call, True), boundary="extend" if call["boundary"].get("v") != "extend" else "fill",
+                                                       fill_value=5))
+                except Exception:
+                    pass
+                received.clear()
+                returned.clear()
             res = gu(grid, *inputs, axis=axis, **kw_of(call, True))
         results = list(res) if isinstance(res, (tuple, list)) else [res]
         rec["out"] = {"k": "results", "received": received, "returned": returned,
